@@ -25,18 +25,18 @@ class FilteredConfigParser(ObjectProxy):
       raise ValueError("Both exclude and include arguments specified. Only one can be used at one time.")
 
     if exclude:
-      self._species_list = exclude
-      self._exclude_flag = True
+      self._self_species_list = exclude
+      self._self_exclude_flag = True
     else:
-      self._species_list = include
-      self._exclude_flag = False
+      self._self_species_list = include
+      self._self_exclude_flag = False
     
   def _check_tuple(self, check_tuple):
     for v in check_tuple:
-      v_in = v in self._species_list
-      if self._exclude_flag and v_in:
+      v_in = v in self._self_species_list
+      if self._self_exclude_flag and v_in:
         return False
-      elif not self._exclude_flag and not v_in:
+      elif not self._self_exclude_flag and not v_in:
         return False
     return True
 
